@@ -152,6 +152,43 @@ def family_L(rng, n=None, max_lag=3, max_lead=2, measurement=None, unit_root=Fal
     return spec, meta
 
 
+def add_flat_steady_versions(spec):
+    """give the transition equation that holds the deepest lag, and the one that holds the farthest lead, a `!!` steady
+    version in which every time shift is dropped (equivalent in a flat steady state). Only the dynamic versions may decide
+    the lags and leads of the model, its initial conditions and its solution. Deterministic (no random draws).
+    Returns the number of equations changed."""
+    def flat(node):
+        kind = node[0]
+        if kind in ("num", "par"):
+            return node
+        if kind == "var":
+            return ["var", node[1], 0]
+        if kind == "neg":
+            return ["neg", flat(node[1])]
+        if kind == "bin":
+            return ["bin", node[1], flat(node[2]), flat(node[3])]
+        if kind == "call":
+            return ["call", node[1], [flat(a) for a in node[2]]]
+        raise ValueError(kind)
+
+    def shifts(eq):
+        return [s for side in ("lhs", "rhs") for _, s in E.occurrences(eq[side])]
+    if not spec["teqs"]:
+        return 0
+    try:
+        lo = min(range(len(spec["teqs"])), key=lambda i: min(shifts(spec["teqs"][i]) or [0]))
+        hi = max(range(len(spec["teqs"])), key=lambda i: max(shifts(spec["teqs"][i]) or [0]))
+        changed = 0
+        for i in {lo, hi}:
+            eq = spec["teqs"][i]
+            if eq.get("steady") is None and any(shifts(eq)):
+                eq["steady"] = {"lhs": flat(eq["lhs"]), "rhs": flat(eq["rhs"])}
+                changed += 1
+        return changed
+    except ValueError:
+        return 0
+
+
 def _permute_measurement_equations(rng, spec):
     """the measurement equations need not be written in the order in which the measurement variables are declared
     (a rotation of three equations makes the matrix F of the measurement block a non-symmetric permutation)"""
